@@ -28,7 +28,7 @@ RULE = ("random DAG x rewrite (x second rewrite) x every retained output; distin
 TRUSTED_BASE = ["reference evaluator rtc/dag.py", "cloudpickle"]
 ASSUMPTIONS = ["user functions deterministic"]
 
-REWRITES = ["copy", "pickle", "join", "or", "update_renames", "update_renames", "renames-original", "scope",
+REWRITES = ["copy", "pickle", "join", "or", "update_renames", "update_renames", "renames-original", "scope", "scope-partial", "scope-partial",
             "scope-and-remove", "nest", "nest-all", "simplify", "split_disconnected"]
 
 
@@ -129,6 +129,24 @@ def apply_rewrite(name, p, d, names, rng):
             q.update_scope(None, inputs="*", outputs="*")
             return [q], {k: v.split(".")[-1] for k, v in names.items()}
         return [q], {k: sc + "." + v.split(".")[-1] for k, v in names.items()}
+    if name == "scope-partial":
+        # explicit input sets: one or two different scopes for disjoint sets of root arguments; names of intermediates
+        # listed among the inputs are not inputs of the pipeline and are left alone
+        q = p.copy()
+        roots = sorted(r for r in q.topological_generations.root_args if "." not in r)
+        inter = sorted(o for o in q.all_output_names if "." not in o)
+        if not roots:
+            raise NotApplicable
+        rng.shuffle(roots)
+        k = rng.randint(1, len(roots))
+        s1, rest = roots[:k], roots[k:]
+        ren = {r: "sa." + r for r in s1}
+        q.update_scope("sa", inputs=set(s1) | set(rng.sample(inter, min(len(inter), rng.randint(0, 2)))))
+        if rest and rng.random() < 0.7:
+            s2 = rest[:rng.randint(1, len(rest))]
+            q.update_scope("sb", inputs=set(s2))
+            ren.update({r: "sb." + r for r in s2})
+        return [q], {k_: ren.get(v, v) for k_, v in names.items()}
     if name in ("nest", "nest-all"):
         q = p.copy()
         outs = [f.output_name for f in q.functions]
@@ -253,7 +271,7 @@ def _check(case):
             bad.append(f"after {applied}: output {o} raised {type(g).__name__}: {str(g)[:140]}")
         elif g != v:
             bad.append(f"after {applied}: output {o} = {g!r}, original computes {v!r}")
-    if any(r in ("scope",) for r in applied) and "update_renames" not in applied:
+    if any(r in ("scope", "scope-partial") for r in applied) and "update_renames" not in applied:
         got2 = _eval_all(pipes, d, names, scoped_dict=True)
         for o, v in want.items():
             if o in got2 and (isinstance(got2[o], Exception) or got2[o] != v):
